@@ -354,6 +354,13 @@ Example free_on_empty_panics h gr size hd :
   o_kind (snd (step (linear_init h gr size) (OFree hd))) = RPanic.
 Proof. reflexivity. Qed.
 
+(* allocationGranularity = 0 (nothing in NewBlockMetadata rules it out) makes every lower allocation
+   that fits at the end of the first vector panic: allocSize % m.allocationGranularity divides by
+   zero.  This is why LInv demands pow2 (l_gran l). *)
+Example gran_zero_panics :
+  o_kind (snd (step (linear_init HFake 0 100) (OAlloc 10 1 1 0 false 0 None))) = RPanic.
+Proof. vm_compute. reflexivity. Qed.
+
 (* Freeing a handle twice while the lazily deleted item still lingers in the first vector is accepted
    and corrupts the null counter / sumFreeSize: three allocations of 10 bytes at 0, 10, 20; the
    middle one is freed twice.  Both frees return ROk, afterwards Validate fails, the block reports
@@ -371,3 +378,66 @@ Example double_free_corrupts :
   ks = [ROk; ROk; ROk; ROk; ROk] /\ validate l = Some false /\
   sum_free_size l = 90 /\ zlen (live l) = 2 /\ allocation_count l = 1.
 Proof. vm_compute. repeat split. Qed.
+
+(* ------------------------------------------------------------------ histories *)
+
+Fixpoint lrun (l : linear) (ops : list op) : linear :=
+  match ops with
+  | [] => l
+  | o :: rest => lrun (fst (step l o)) rest
+  end.
+
+(* every operation of the history is admissible in the state it is applied to *)
+Fixpoint ops_ok (l : linear) (ops : list op) : Prop :=
+  match ops with
+  | [] => True
+  | o :: rest => op_ok l o /\ ops_ok (fst (step l o)) rest
+  end.
+
+Theorem lrun_LInv l ops h gr size :
+  LInv l -> cfg l h gr size -> ops_ok l ops -> LInv (lrun l ops) /\ cfg (lrun l ops) h gr size.
+Proof.
+  revert l; induction ops as [|o rest IH]; intros l HI Hc Hok; cbn in *; [auto|].
+  destruct Hok as (Ho & Hrest). apply IH; auto.
+  - apply step_preserves_LInv; assumption.
+  - apply step_cfg; assumption.
+Qed.
+
+(* C01 / C03 for every admissible history from a fresh block *)
+Corollary linear_history_sound h gr size ops :
+  0 <= size -> pow2 gr -> ops_ok (linear_init h gr size) ops ->
+  let l := lrun (linear_init h gr size) ops in
+  l_size l = size /\
+  (forall x, In x (live l) ->
+     0 <= s_off x /\ s_off x + s_size x <= size /\ 0 < s_reqalign x /\ s_off x mod s_reqalign x = 0 /\
+     s_reqsize x <= s_size x /\
+     forall y, In y (live l) -> x <> y -> disjoint x y) /\
+  allocation_count l = zlen (live l) /\ sum_free_size l = size - sum_sizes (live l) /\
+  validate l = Some true.
+Proof.
+  intros Hs Hg Hok l.
+  destruct (lrun_LInv _ ops h gr size (init_LInv h gr size Hs Hg) (cfg_init h gr size) Hok) as (HI & Hsz & _).
+  fold l in HI, Hsz. destruct (live_sound l (proj1 HI)) as (Hb & _ & Hd).
+  destruct (bookkeeping l HI) as (Hac & Hsf & _ & Hv). rewrite <- Hsz.
+  split; [reflexivity|]. split; [|auto].
+  intros x Hx. destruct (Hb x Hx) as (H1 & H2 & H3 & H4 & H5 & H6 & H7). repeat split; auto.
+Qed.
+
+(* non-vacuity: an admissible history that exercises the ring buffer, lazy deletion and the swap *)
+Definition ex_ops : list op :=
+  [OAlloc 40 8 1 0 false 0 (Some 1); OAlloc 40 8 1 0 false 0 (Some 2); OFree 1;
+   OAlloc 24 8 1 0 false 0 (Some 3); OSetUD 41 (Some 7); OFree 41; OAlloc 8 8 1 0 false 0 None].
+
+Lemma pow2_8 : pow2 8.
+Proof. exists 3. split; [lia|reflexivity]. Qed.
+
+Example ex_ops_ok :
+  ops_ok (linear_init HVam 1 100) ex_ops /\
+  map s_off (live (lrun (linear_init HVam 1 100) ex_ops)) = [0; 24] /\
+  l_swapped (lrun (linear_init HVam 1 100) ex_ops) = true.
+Proof.
+  split; [|vm_compute; auto].
+  cbn [ops_ok ex_ops op_ok]. repeat split; try exact pow2_8.
+  - exists (mkSub 0 40 (Some 1) 1 40 8). split; [vm_compute; auto|reflexivity].
+  - exists (mkSub 40 40 (Some 7) 1 40 8). split; [vm_compute; auto|reflexivity].
+Qed.
